@@ -449,7 +449,7 @@ func (t Type) Index(b ...Type) (Type, error) {
 				return Nil, ErrIndex
 			}
 
-			s = string(s[iix[0]])
+			s = s[iix[0] : iix[0]+1]
 			return NewString(s), nil
 		}
 	case arrayT:
